@@ -474,6 +474,10 @@ func prepare(op *Op) *Prepared {
 			// half (same public half as the honest key of this op seed)
 			privBytes = append(append([]byte{}, seededBytes(32, op.Seed, lbl("foreign-seed"))...), privBytes[32:]...)
 		}
+		if op.Other == 2 {
+			// a bare seed in a 64-byte buffer: the public half is all zero
+			privBytes = append(append([]byte{}, privBytes[:32]...), make([]byte, 32)...)
+		}
 		p.priv = g.Buf(resize(privBytes, shapeLen(op.KL, 64), op.Seed))
 		if ml < 0 {
 			p.msg = nil
